@@ -291,7 +291,8 @@ if isinstance(V_val, list):
 elif isinstance(V_val, str):
     ...
 ''', 'V_new = list(map(float, V_val))', 'V_new = float(V_val)', 'V_sec[V_key] = V_new', 'return V_new'],
-                 binding={'V_sec': ps[1], 'V_key': ps[2]})
+                 binding={'V_sec': ps[1], 'V_key': ps[2]},
+             under=['isinstance(V_val, list)', 'isinstance(V_val, str)', 'V_val.lower() in V_w1', 'V_val.lower() in V_w2'])
         # the boolean word sets: every `x.lower() in [literals]` test assigns the constant its words mean
         words = {}
         for n in ast.walk(f.node):
@@ -395,7 +396,8 @@ except KeyError:
     ...
     raise KeyError
 ''', 'V_k = V_fac(V_sel)', 'return (V_cfg, V_k, V_mix)'],
-             binding={'V_cfg': ps[0], 'V_field': ps[1], 'V_fac': ps[2]})
+             binding={'V_cfg': ps[0], 'V_field': ps[1], 'V_fac': ps[2]},
+             under=['len(V_split) == 1', "V_sel == 'custom'"])
     # constructors reached through klass(**config): no **kwargs sink
     direct = ['star', 'planet', 'optimizer', 'observation', 'instrument']
     for fam in direct + ['temperature', 'pressure', 'chemistry', 'gas', 'model', 'contribution']:
